@@ -3,6 +3,7 @@ from __future__ import annotations
 
 import random
 import shutil
+import unicodedata
 from fractions import Fraction
 
 from pv.core import CaseTimeout, import_pydsdl
@@ -36,15 +37,16 @@ def plan(tier):
     return {"shards": 16, "params": {"n_valid": 800000, "n_error": 80000, "batch": 40, "time_cap_s": 1800}, "hard_timeout_s": 3600}
 
 
-def native(pydsdl, v):
+def native(pydsdl, v, in_set=False):
     if isinstance(v, pydsdl.Boolean):
         return ("b", v.native_value)
     if isinstance(v, pydsdl.Rational):
         return ("r", Fraction(v.native_value))
     if isinstance(v, pydsdl.String):
-        return ("s", v.native_value)
+        # which of several canonically equivalent spellings a set keeps is not pinned; as an element a string stands for its NFC form
+        return ("s", unicodedata.normalize("NFC", v.native_value) if in_set else v.native_value)
     if isinstance(v, pydsdl.Set):
-        return ("set", frozenset(native(pydsdl, e) for e in v))
+        return ("set", frozenset(native(pydsdl, e, True) for e in v))
     return ("other", repr(v))
 
 
